@@ -238,7 +238,7 @@ func (m *MClaims) BuildLiteral() (psatoken.IClaims, bool) {
 			if len(*m.Nonces) != 1 {
 				return nil, false
 			}
-			c.Nonce = bp(append([]byte{}, (*m.Nonces)[0]...))
+			setNonceField(c, (*m.Nonces)[0])
 		}
 		return c, true
 	}
@@ -388,6 +388,24 @@ func deref16(p *uint16) uint16 {
 // setIntField sets the exported pointer-to-integer field name of *obj through
 // reflection, whatever integer width the library declares it with (so that
 // the harness still builds if a field is widened).
+// setNonceField assigns the profile-1 nonce through reflection, so that the
+// harness still builds (and judges) a tree in which the field's Go type was
+// changed to the container profile 2 uses.
+func setNonceField(obj any, v []byte) {
+	f := reflect.ValueOf(obj).Elem().FieldByName("Nonce")
+	if !f.IsValid() || f.Kind() != reflect.Pointer {
+		panic("VERIF-INFRA: no pointer field Nonce")
+	}
+	switch f.Type() {
+	case reflect.TypeOf((*[]byte)(nil)):
+		f.Set(reflect.ValueOf(bp(append([]byte{}, v...))))
+	case reflect.TypeOf((*eat.Nonce)(nil)):
+		f.Set(reflect.ValueOf(eatNonce([][]byte{v})))
+	default:
+		panic("VERIF-INFRA: field Nonce has an unexpected type " + f.Type().String())
+	}
+}
+
 func setIntField(obj any, name string, present bool, v int64) {
 	f := reflect.ValueOf(obj).Elem().FieldByName(name)
 	if !f.IsValid() || f.Kind() != reflect.Pointer {
